@@ -620,6 +620,9 @@ def memo_checks(ctx, P, count):
 def run(ctx):
     ctx.build(['P_C11.vo'])
     ctx.theorems('P_C11')
+    # the same end-to-end statements with the CONCRETE pop policy (libstdc++ heap twin) in place of an abstract one
+    ctx.build(['P_C11_d.vo'])
+    ctx.theorems('P_C11_d')
     P = glue.parsing()
     real_time = P.time
     P.time = FastSleep()
@@ -650,7 +653,8 @@ def run(ctx):
     # deterministic twin built on it predicts the real pop order, ties included, from the problem alone
     import dsearch_cases
     dsearch_cases.run_dsearch(ctx, 500 if ctx.quick else 12000)
-    ctx.trusted += ['memo model coq/GlueMemo.v (tied to parsing.pyx/parsing.h: replay of the recorded rule-function invocations gives the real final category table and the real cache entries)',
+    ctx.trusted += ['twin-under-memo model coq/DSearchMemo.v dmstep: composition of DSearch.dstep (tied by exact pop-trace prediction), Heap.v (tied to libstdc++) and GlueMemo.memo_step (tied by replay)',
+                    'memo model coq/GlueMemo.v (tied to parsing.pyx/parsing.h: replay of the recorded rule-function invocations gives the real final category table and the real cache entries)',
                     'chunk model coq/GlueMemo.v chunks_py (tied to parsing.py _chunks exactly for all lengths 0..60 x 0..8 chunks, the ValueError of the empty list included)',
                     'wrapper model coq/GlueMemoRun.v run (tied to parsing.py run with depccg._parsing.run replaced by a probe: branch taken, chunk sizes, process ids, result order, exception class for well-formed and malformed inputs, processes -1..4, max_chunk_size -1..100, real multiprocessing.Pool); its _type_check part is coq/Filter.v (tied in C17)',
                     'search-under-memo model coq/GlueMemoSearch.v mreach: composition of AStarImpl.jstep (tied by pop-trace validation) and GlueMemo.memo_step (tied by the replay above); the order of the lookups within one loop iteration is left free in the model',
@@ -664,7 +668,7 @@ def run(ctx):
              'non-trivial = a multi-token sentence compared at a position/history other than alone; distinct by (scenario, schedule, position)',
         assumptions=['what the model cannot exhibit - OS scheduling of the worker processes and pickling of arguments/results inside multiprocessing - is exercised (Pool really forks; slow first chunks make later chunks finish first), not proved',
                      'the wait loop of depccg.parsing.run naps with time.sleep(1); the harness shortens the nap to 20 ms (pacing only)',
-                     'the set of possible results of a sentence is proved history-independent end to end (C11_batch_equals_alone, C11_same_sentence_same_result_under_any_history); WHICH of several equal-priority pops the std::priority_queue takes is modelled by coq/Heap.v + DSearch.v (literal libstdc++ sift-up/sift-down, tied to the real library and to the real pop traces, ties included) and proved to depend on the scores only (C11_d_search_is_category_blind: a bi-unique renaming of the derived category ids gives position-wise related traces and equal scores); this is proved for the search with fixed rule functions - threading the blind twin through the incremental memo (mreach_p) is not done, the oracle on rows with equal scores covers it; the order of equal tag scores is by lexical id = position in the input category list, which no history changes',
+                     'the set of possible results of a sentence is proved history-independent end to end (C11_batch_equals_alone, C11_same_sentence_same_result_under_any_history); WHICH of several equal-priority pops the std::priority_queue takes is modelled by coq/Heap.v + DSearch.v (literal libstdc++ sift-up/sift-down, tied to the real library and to the real pop traces, ties included) and proved to depend on the scores only (C11_d_search_is_category_blind: a bi-unique renaming of the derived category ids gives position-wise related traces and equal scores); and the twin is threaded through the incremental memo (P_C11_d.v: C11_d_same_sentence_same_outcome_under_any_history, C11_d_batch_is_a_function_of_the_batch, with no policy hypothesis); the heap-driven choice is not exhibited as a value of the abstract policy_t (its push order differs from the list order of jstep: ex_c11_d_push_order_differs); the order of equal tag scores is by lexical id = position in the input category list, which no history changes',
                      'an element-type mismatch (float64) is detected when the sentence is reached, not up front: checked only as "raises; nothing parsed if it is the first sentence"',
                      'depccg._parsing.run is a parameter of the wrapper model; "per sentence" (C11_chunked_equals_unchunked) is what C11_batch_equals_alone says of its loop up to the tie-breaking above',
                      'math.ceil(len/num) is float division in Python, integer ceiling in the model: identical for every list a machine can hold below 2^53 elements'])
